@@ -451,3 +451,61 @@ Proof.
   - apply heap_ok_nil.
   - exact H.
 Qed.
+
+(* ---------- several tasks on one queue: any schedule of whole-method critical sections ---------- *)
+Lemma pqstep_conserves l o :
+  heap_ok l ->
+  Permutation (l ++ added_by o) (fst (pqstep l o) ++ handed_by l o) /\
+  StronglySorted (fun a b => (a <= b)%N) (handed_by l o) /\
+  (forall x y, In x (handed_by l o) -> In y (fst (pqstep l o)) -> o <> PAdd y -> (x <= y)%N).
+Proof.
+  intros H. destruct o as [x| | |]; cbn [pqstep added_by handed_by fst].
+  - destruct (heap_push_ok l x H) as [_ P]. rewrite app_nil_r. split; [|split; [constructor|intros ? ? []]].
+    eapply Permutation_trans; [apply Permutation_app_comm|]. cbn. symmetry. exact P.
+  - destruct (heap_pop l) as [[x l']|] eqn:E; cbn [fst].
+    + destruct (heap_pop_ok l x l' H E) as (H' & P & Hmin). rewrite app_nil_r. split; [|split].
+      * eapply Permutation_trans; [exact P|]. apply Permutation_cons_append.
+      * repeat constructor.
+      * intros a y [<-|[]] Hy _. apply Hmin. apply (Permutation_in _ (Permutation_sym P)). right. exact Hy.
+    + rewrite !app_nil_r. split; [apply Permutation_refl|split; [constructor|intros ? ? []]].
+  - destruct (pop_all_sorted (length l) l H (le_n _)) as [P S]. rewrite app_nil_r. cbn [app].
+    split; [symmetry; exact P|split; [exact S|intros ? ? _ []]].
+  - rewrite !app_nil_r. split; [apply Permutation_refl|split; [constructor|intros ? ? []]].
+Qed.
+
+Definition PQInv (I : list N) (st : pqconc) : Prop :=
+  heap_ok (pq_items st) /\
+  Permutation (I ++ pq_added st) (pq_items st ++ concat (pq_handed st)) /\
+  Forall (StronglySorted (fun a b => (a <= b)%N)) (pq_handed st).
+
+Lemma concat_snoc (hs : list (list N)) h : concat (hs ++ [h]) = concat hs ++ h.
+Proof. rewrite concat_app. cbn [concat]. rewrite app_nil_r. reflexivity. Qed.
+
+(* whatever the tasks, their operations and the schedule: the queue stays a heap, nothing is lost or
+   duplicated (what was there or added = what is still queued + what was handed out), and every Next /
+   NextAll handed its items out in ascending counter order *)
+Lemma pq_conc_inv I : forall sched progs st, PQInv I st -> PQInv I (pq_conc st progs sched).
+Proof.
+  induction sched as [|t sched IH]; intros progs st Hi; cbn [pq_conc]; [exact Hi|].
+  destruct (nth_error progs t) as [[|o rest]|]; try (apply IH; exact Hi).
+  apply IH. destruct Hi as (H & P & S).
+  destruct (pqstep_conserves (pq_items st) o H) as (Po & So & _).
+  split; [|split]; cbn [pq_items pq_added pq_handed].
+  - apply pqstep_heap. exact H.
+  - apply (Permutation_count_occ N.eq_dec). intros x.
+    pose proof (proj1 (Permutation_count_occ N.eq_dec _ _) P x) as C1.
+    pose proof (proj1 (Permutation_count_occ N.eq_dec _ _) Po x) as C2.
+    rewrite !count_occ_app in *.
+    assert (Hc : count_occ N.eq_dec
+                   (concat (match o with PNext | PNextAll => pq_handed st ++ [handed_by (pq_items st) o] | _ => pq_handed st end)) x =
+                 count_occ N.eq_dec (concat (pq_handed st)) x + count_occ N.eq_dec (handed_by (pq_items st) o) x).
+    { destruct o; cbn [handed_by count_occ]; rewrite ?concat_snoc, ?count_occ_app; lia. }
+    rewrite Hc. lia.
+  - destruct o; try exact S; apply Forall_app; split; try exact S; repeat constructor; exact So.
+Qed.
+
+Lemma pq_conc_from_empty progs sched :
+  PQInv [] (pq_conc (mkPQ [] [] []) progs sched).
+Proof.
+  apply pq_conc_inv. split; [apply heap_ok_nil|split; [apply Permutation_refl|constructor]].
+Qed.
